@@ -47,34 +47,60 @@ macro_rules! each_leaf {
 
 #[kani::proof]
 #[kani::unwind(4)]
-//@ tier=quick class=core cap=600 bounds="all 20 leaf kinds: identical encoding, the From conversion and from_bytes::<Owned> give exactly the owned leaf, wire index = declaration position"
+//@ tier=quick class=core cap=600 bounds="all 20 leaf kinds: borrowed and owned leaf encode identically, as one byte = the kind's declaration index"
 fn c15_leaves() {
     fn one(i: usize) {
         let o = owned(i);
-        same_encoding(&BORROWED[i], &o);
-        assert!(O::from(&BORROWED[i]) == o, "conversion of a leaf kind yields a different kind");
-        let mut buf = [0u8; 4];
-        let bytes = postcard::to_slice(&BORROWED[i], &mut buf).unwrap();
-        assert!(bytes.len() == 1 && bytes[0] == WIRE_IDX[i], "leaf kind is not encoded as its declaration index");
-        let back: O = postcard::from_bytes(bytes).unwrap();
-        assert!(back == o, "decoding a leaf schema yields a different kind");
+        let mut b1 = [0u8; 4];
+        let mut b2 = [0u8; 4];
+        let r1 = postcard::to_slice(&BORROWED[i], &mut b1).unwrap().len();
+        let r2 = postcard::to_slice(&o, &mut b2).unwrap().len();
+        assert!(r1 == 1 && r2 == 1, "a leaf kind is not encoded as a single byte");
+        assert!(b1[0] == WIRE_IDX[i] && b2[0] == WIRE_IDX[i], "leaf kind is not encoded as its declaration index in both forms");
     }
     each_leaf!(one);
     kani::cover!(true, "all leaves visited");
 }
 
 #[kani::proof]
-#[kani::unwind(6)]
-//@ tier=quick class=core cap=900 bounds="all 20 leaf kinds x every path of 0..=3 UTF-8 bytes: compile-time (hook H2) and run-time keys both equal FNV-1a(path ++ documented tag)" hooks=H2
-fn c16_leaves() {
+#[kani::unwind(4)]
+//@ tier=quick class=core cap=900 bounds="all 20 leaf kinds: the hand-written From conversion maps each borrowed leaf to the same owned leaf"
+fn c15_leaves_from() {
+    fn one(i: usize) {
+        assert!(O::from(&BORROWED[i]) == owned(i), "conversion of a leaf kind yields a different kind");
+    }
+    each_leaf!(one);
+    kani::cover!(true, "all leaves visited");
+}
+
+#[kani::proof]
+#[kani::unwind(4)]
+//@ tier=thorough class=best cap=1800 bounds="all 20 leaf kinds: from_bytes::<OwnedDataModelType>([index]) is the owned leaf"
+fn c15_leaves_dec() {
+    fn one(i: usize) {
+        let back: O = postcard::from_bytes(&[WIRE_IDX[i]]).unwrap();
+        assert!(back == owned(i), "decoding a leaf schema yields a different kind");
+    }
+    each_leaf!(one);
+    kani::cover!(true, "all leaves visited");
+}
+
+#[kani::proof]
+#[kani::stub(postcard_schema::key::hash::fnv1a64::hash_update, crate::shapes::hash_update_logger)]
+#[kani::unwind(40)]
+//@ tier=quick class=core cap=900 bounds="all 20 leaf kinds x every path of 0..=3 UTF-8 bytes: both hashers feed hash_update exactly path ++ documented tag" stubs="hash_update=byte logger (kernel verified separately)" hooks=H2
+fn c16_leaves_stream() {
     let path = Path::any();
-    let base = ref_fnv(REF_BASIS, path.bytes());
     let one = |i: usize| {
-        let want = ref_fnv(base, &[TAGS[i]]).to_le_bytes();
-        let kc = postcard_schema::key::hash::fnv1a64::verif_hash_static(path.as_str(), &BORROWED[i]);
-        let ko = postcard_schema::key::Key::for_owned_schema_path(path.as_str(), &owned(i)).to_bytes();
-        assert!(kc == want, "compile-time key of a leaf kind differs from the documented tag");
-        assert!(ko == want, "run-time key of a leaf kind differs from the documented tag");
+        let mut want = Expect::new();
+        want.bytes(path.bytes());
+        want.tag(TAGS[i]);
+        stream_reset();
+        let _ = postcard_schema::key::hash::fnv1a64::verif_hash_static(path.as_str(), &BORROWED[i]);
+        stream_equals(&want);
+        stream_reset();
+        let _ = postcard_schema::key::Key::for_owned_schema_path(path.as_str(), &owned(i));
+        stream_equals(&want);
     };
     each_leaf!(one);
     kani::cover!(path.len == 3, "3-byte path reachable");
